@@ -1094,15 +1094,16 @@ def estimate_sky(
     """
     if not np.ma.is_masked(image) and mask is not None:
         image = np.ma.masked_array(image, mask)
-    edge_pixels = np.concatenate(
-        (
-            image[:n_pix_sample, :],
-            image[-n_pix_sample:, :],
-            image[n_pix_sample:-n_pix_sample, :n_pix_sample],
-            image[n_pix_sample:-n_pix_sample, -n_pix_sample:],
-        ),
-        axis=None,
-    )
+    # np.concatenate drops the mask of masked arrays: use the masked version
+    # and keep only the unmasked pixels
+    edge_pixels = np.ma.concatenate(
+        [
+            np.ravel(image[:n_pix_sample, :]),
+            np.ravel(image[-n_pix_sample:, :]),
+            np.ravel(image[n_pix_sample:-n_pix_sample, :n_pix_sample]),
+            np.ravel(image[n_pix_sample:-n_pix_sample, -n_pix_sample:]),
+        ]
+    ).compressed()
     median_val = np.ma.median(edge_pixels)
     err_on_median = bws(edge_pixels)
     return median_val, err_on_median, np.prod(edge_pixels.shape)
